@@ -1,7 +1,7 @@
 CONSTANTS
 Mutant = 0
 MaxFail = 3
-Big = 0
+Big = 1
 INIT Init
 NEXT Next
 INVARIANT I_NonNeg
